@@ -42,7 +42,7 @@ impl Property for C11 {
 
     fn runs(&self, tier: Tier) -> u64 {
         match tier {
-            Tier::Quick => 10 * 4 * 4,
+            Tier::Quick => 10 * 4 * 8,
             Tier::Thorough => 10 * 4 * 200,
         }
     }
